@@ -90,17 +90,14 @@ func modelDelivery(sc *sim.Scenario, recipients []string, senderInbox string, ma
 			typ, _ := doc["type"].(string)
 			if member, isCol := collectionTypes[typ]; isCol {
 				var more []string
-				bad := false
 				for _, it := range asList(doc[member]) {
 					id, ok := idOfValue(it)
-					if !ok {
-						bad = true
-						break
+					if !ok || isPublic(id) {
+						// a member that names nobody is skipped, the others
+						// still count; Public is never dereferenced
+						continue
 					}
 					more = append(more, id)
-				}
-				if bad {
-					continue
 				}
 				resolve(more, depth+1)
 				continue
@@ -210,6 +207,13 @@ func genDeliveryScenario(g *prng.R) (*sim.Scenario, M) {
 			sc.Remote[id] = sim.RemoteSpec{Raw: "<html>not json</html>"}
 		case 2:
 			sc.Remote[id] = sim.RemoteSpec{Doc: M{"@context": AS, "type": "FrobnicateThing", "id": id, "inbox": id + "/inbox"}}
+		case 4:
+			// a document that parses but names no usable inbox
+			if g.Bool() {
+				sc.Remote[id] = sim.RemoteSpec{Doc: M{"@context": AS, "type": "Person", "id": id, "name": "no inbox here"}}
+			} else {
+				sc.Remote[id] = sim.RemoteSpec{Doc: M{"@context": AS, "type": "Person", "id": id, "inbox": 12}}
+			}
 		case 3:
 			// not registered at all: 404
 		default:
@@ -245,6 +249,15 @@ func genDeliveryScenario(g *prng.R) (*sim.Scenario, M) {
 			}
 			if g.Chance(1, 10) {
 				ref = pick(g, alice(), bob()) // the sender (or another local actor) as a member
+			}
+			if g.Chance(1, 14) {
+				// a member without an id names nobody; the Public collection as a member
+				if g.Bool() {
+					items = append(items, M{"type": "Person", "name": "member without id"})
+				} else {
+					items = append(items, pick(g, Public, "as:Public"))
+				}
+				continue
 			}
 			if g.Chance(1, 4) {
 				m := M{"type": "Person", "id": ref}
@@ -326,6 +339,10 @@ func genDeliveryScenario(g *prng.R) (*sim.Scenario, M) {
 		var vals A
 		for i := 0; i < n; i++ {
 			ref := pool[g.Intn(len(pool))]
+			if g.Chance(1, 25) {
+				vals = append(vals, M{"type": "Person", "name": "addressee without id"}) // names nobody
+				continue
+			}
 			addressed[ref] = true
 			if g.Chance(1, 4) && !isPublic(ref) {
 				m := M{"type": "Person", "id": ref}
@@ -376,12 +393,7 @@ func init() {
 				return
 			}
 			if rp.Err != "" {
-				feat := "delivery failed"
-				recips := recipientIDs(act)
-				if len(recips) > 0 {
-					feat = "unreachable recipient in last position"
-				}
-				viol("delivery-failed", "pub.(*sideEffectActor).resolveActors", feat, rp.Err)
+				viol("delivery-failed", "pub.(*sideEffectActor).prepare", errFeature(rp.Err), rp.Err)
 				return
 			}
 			var batches []sim.Event
